@@ -135,6 +135,14 @@ class RunResult:
     def api_requests(self):
         return [r for r in self.server_log if not r["path"].startswith("/__schema__")]
 
+    def test_requests(self):
+        """Requests sent as tests (no schema fetches, no capability probes)."""
+        return [
+            r
+            for r in self.api_requests()
+            if not any(k.lower() == "x-schemathesis-probe" for k, _ in r["headers"])
+        ]
+
 
 def make_script(doc, rules=None, default=None, schema_format="json"):
     if schema_format == "yaml":
